@@ -141,7 +141,7 @@ Lemma socket_new_spec (s : os) r s' : 0 <= o_nextfd s -> socket_new s = (r, s') 
      (err <> 0 /\ r = Exn (SysErr err) /\ o_nextfd s' = o_nextfd s)).
 Proof.
   intros Hnn. unfold socket_new, bind, sys_socket.
-  set (err := match lookup (o_nsys s) (o_faults s) with Some e => e | None => 0 end).
+  set (err := fault_of s S_SOCKET).
   intros H. exists err. cbn in H. destruct (err =? 0) eqn:E.
   - apply Z.eqb_eq in E. cbn in H.
     assert (Hlt : (o_nextfd s <? 0) = false) by (apply Z.ltb_ge; assumption).
